@@ -7,6 +7,7 @@ from harness import lib
 
 GENERATORS = {
     "GranCompat_gen": "translator.gen_grancompat",
+    "RelKeys_gen": "translator.gen_relkeys",
 }
 
 
